@@ -1,7 +1,10 @@
 package attacksim
 
 import (
+	"crypto/tls"
 	"encoding/json"
+	"fmt"
+	"net"
 	"net/http"
 	"sort"
 	"time"
@@ -35,12 +38,53 @@ func (s *attackSim) run(keep bool) {
 	client := &http.Client{Transport: &simTransport{plans: cfg.Plans}}
 	// the options in a tape-chosen order: none of them may depend on its position
 	opts := []func(*vegeta.Attacker){vegeta.Client(client), vegeta.Workers(uint64(cfg.W)), vegeta.MaxWorkers(uint64(cfg.M)), vegeta.MaxBody(cfg.MaxBody)}
+	neutral := ""
+	if s.tape.Prob(1, 3) {
+		// the simulated transport behind a real *http.Transport (registered as its handler of the http scheme), so
+		// that the options that configure the transport can be applied as well: none of them has a say in how
+		// many hits run concurrently, in the order of results or in their timestamps
+		tr := &http.Transport{TLSClientConfig: &tls.Config{}}
+		tr.RegisterProtocol("http", client.Transport)
+		client.Transport = tr
+		for i, k := 0, 1+s.tape.Choose(3); i < k; i++ {
+			var o func(*vegeta.Attacker)
+			c := s.tape.Choose(11)
+			switch c {
+			case 0:
+				o = vegeta.MaxConnections(1 + s.tape.Choose(cfg.M+1))
+			case 1:
+				o = vegeta.Connections(1 + s.tape.Choose(4))
+			case 2:
+				o = vegeta.KeepAlive(s.tape.Prob(1, 2))
+			case 3:
+				o = vegeta.HTTP2(s.tape.Prob(1, 2))
+			case 4:
+				o = vegeta.TLSConfig(&tls.Config{})
+			case 5:
+				o = vegeta.SessionTickets(s.tape.Prob(1, 2))
+			case 6:
+				o = vegeta.UnixSocket("/nonexistent/vsim.sock")
+			case 7:
+				o = vegeta.LocalAddr(net.IPAddr{IP: net.IPv4(127, 0, 0, 1)})
+			case 8:
+				o = vegeta.ProxyHeader(http.Header{"X-Proxy": []string{"1"}})
+			case 9:
+				o = vegeta.ConnectTo(map[string][]string{"sim0.test:80": {"10.0.0.1:80", "10.0.0.2:80"}})
+			case 10:
+				o = vegeta.DNSCaching([]time.Duration{0, -1}[s.tape.Choose(2)])
+			}
+			neutral += fmt.Sprintf(" %d", c)
+			opts = append(opts, o)
+		}
+		s.stats["probe.real-transport-front"]++
+	}
 	for i := len(opts) - 1; i > 0; i-- {
 		j := s.tape.Choose(i + 1)
 		opts[i], opts[j] = opts[j], opts[i]
 	}
 	atk := vegeta.NewAttacker(opts...)
 	pacer := &simPacer{real: cfg.Real}
+	w.Log.Addf("neutral options:%s", neutral)
 	w.Log.Addf("config W=%d M=%d du=%d name=%q pacer=%d stopAt=%d tgtErrAt=%d cons=%d stops=%d/%d arms=%v mediate=%v plans=%d",
 		cfg.W, cfg.M, cfg.Du, cfg.Name, cfg.PacerMode, cfg.StopAtCall, cfg.TgtErrAt, cfg.Consumers, cfg.StopCalls, cfg.Stoppers, cfg.Arms, cfg.Mediate, len(cfg.Plans))
 
